@@ -15,7 +15,7 @@ import (
 // registered before watching ended.
 func zzH19d() {
 	w := NewWatcher()
-	zzGuardedBy(&w.m, &w.mu, "Watcher.m")
+	zzGuardedIn(&w.m, w, "Watcher.m")
 	c1, c2 := zzChange("c1"), zzChange("c2")
 	k := zzNondetChoice("release-point", 4)
 	early := w.Subscribe("eth0", LinkAny)
